@@ -108,6 +108,8 @@ pub struct Profile {
     pub sink_faults: bool,
     /// allow unusual source behaviour
     pub src_tricks: bool,
+    /// incorrect size hints too (only memory safety is judged under them)
+    pub bad_hints: bool,
     /// only shapes that never allocate
     pub no_heap_shapes: bool,
     pub alloc_window: bool,
@@ -118,7 +120,7 @@ pub struct Profile {
 
 impl Profile {
     pub fn base(weights: Vec<(Kind, u32)>) -> Self {
-        Profile { weights, min_ops: 1, max_ops: 24, forget: false, sink_faults: false, src_tricks: false, no_heap_shapes: false, alloc_window: false, lies: false, serde_faults: false }
+        Profile { weights, min_ops: 1, max_ops: 24, forget: false, sink_faults: false, src_tricks: false, bad_hints: false, no_heap_shapes: false, alloc_window: false, lies: false, serde_faults: false }
     }
 }
 
@@ -136,7 +138,7 @@ pub fn boost(mut w: Vec<(Kind, u32)>, kinds: &[Kind], weight: u32) -> Vec<(Kind,
 }
 
 /// (shape, N, M) combinations the executor is monomorphised for.
-pub const MENU: [(Shape, usize, usize); 27] = [
+pub const MENU: [(Shape, usize, usize); 32] = [
     (Shape::Small, 0, 0),
     (Shape::Small, 0, 2),
     (Shape::Small, 1, 1),
@@ -164,6 +166,11 @@ pub const MENU: [(Shape, usize, usize); 27] = [
     (Shape::ZstVal, 8, 8),
     (Shape::ZstBoth, 3, 3),
     (Shape::ZstBoth, 16, 4),
+    (Shape::PlainKey, 2, 1),
+    (Shape::PlainKey, 3, 3),
+    (Shape::PlainKey, 8, 8),
+    (Shape::PlainVal, 3, 5),
+    (Shape::PlainVal, 8, 8),
 ];
 
 pub struct G<'a> {
@@ -200,10 +207,27 @@ impl G<'_> {
         }
     }
     fn end(&mut self) -> End {
-        match self.r.below(if self.p.forget { 4 } else { 3 }) {
-            0 => End::Exhaust,
-            3 => End::Forget,
-            _ => End::Drop,
+        let k = self.r.below(self.n.max(self.m) as u64 + 2) as u8;
+        match self.r.below(if self.p.forget { 16 } else { 14 }) {
+            0 | 1 => End::Exhaust,
+            2 | 3 | 4 => End::Drop,
+            5 => End::Fold,
+            6 => End::ForEach,
+            7 => End::Count,
+            8 => End::Last,
+            9 => End::Nth(k),
+            10 => End::Find(k),
+            11 => End::StepBy(k % 4),
+            12 => End::Skip(k),
+            13 => if self.r.chance(1, 2) { End::MinBy } else { End::AllUntil(k) },
+            _ => End::Forget,
+        }
+    }
+    fn clone_keep(&mut self, t: T) -> CloneKeep {
+        match self.r.below(3) {
+            0 => CloneKeep::DropClone,
+            1 => CloneKeep::KeepClone,
+            _ => CloneKeep::CloneFrom(self.r.below(self.cap(t) as u64 + 1) as u8),
         }
     }
     fn take(&mut self, t: T) -> u8 {
@@ -222,7 +246,7 @@ impl G<'_> {
     }
     fn src(&mut self, len: usize) -> SrcCfg {
         if self.p.src_tricks && self.r.chance(1, 2) {
-            SrcCfg { hint: self.r.below(5) as u8, gap_at: if self.r.chance(1, 3) { Some(self.r.below(len as u64 + 1) as u8) } else { None } }
+            SrcCfg { hint: self.r.below(if self.p.bad_hints { 8 } else { 5 }) as u8, gap_at: if self.r.chance(1, 3) { Some(self.r.below(len as u64 + 1) as u8) } else { None } }
         } else {
             SrcCfg { hint: 0, gap_at: None }
         }
@@ -291,9 +315,9 @@ impl G<'_> {
             Kind::Iter => {
                 let kind = [IterKind::Iter, IterKind::IterMut, IterKind::Keys, IterKind::Values, IterKind::ValuesMut, IterKind::RefIntoIter, IterKind::MutIntoIter][self.r.below(7) as usize];
                 let take = self.take(t);
-                Op::Iter { t, kind, take, clone_at: if self.r.chance(1, 2) { Some(self.r.below(take as u64 + 1) as u8) } else { None }, dbg_at: None }
+                Op::Iter { t, kind, take, clone_at: if self.r.chance(1, 2) { Some(self.r.below(take as u64 + 1) as u8) } else { None }, dbg_at: None, fin: self.r.below(7) as u8 }
             }
-            Kind::Clone => Op::CloneMap { t, keep: if self.r.chance(1, 2) { CloneKeep::DropClone } else { CloneKeep::KeepClone } },
+            Kind::Clone => Op::CloneMap { t, keep: self.clone_keep(t) },
             Kind::Eq => Op::EqMap { a: t, b: self.t() },
             Kind::FromIter => {
                 let items = self.items(t);
@@ -348,9 +372,9 @@ impl G<'_> {
             Kind::SConsume => Op::SIntoIter { t, take: self.take(t), end: self.end() },
             Kind::SIter => {
                 let take = self.take(t);
-                Op::SIter { t, take, clone_at: if self.r.chance(1, 2) { Some(self.r.below(take as u64 + 1) as u8) } else { None } }
+                Op::SIter { t, take, clone_at: if self.r.chance(1, 2) { Some(self.r.below(take as u64 + 1) as u8) } else { None }, fin: self.r.below(7) as u8 }
             }
-            Kind::SClone => Op::SClone { t, keep: if self.r.chance(1, 2) { CloneKeep::DropClone } else { CloneKeep::KeepClone } },
+            Kind::SClone => Op::SClone { t, keep: self.clone_keep(t) },
             Kind::SEq => Op::SEq { a: t, b: self.t() },
             Kind::SFromIter => {
                 let items = self.items(t);
@@ -376,8 +400,8 @@ impl G<'_> {
             }
             Kind::SRel => Op::SRel { a: t, b: self.t(), kind: [RelKind::Subset, RelKind::Superset, RelKind::Disjoint][self.r.below(3) as usize] },
             Kind::SSub => Op::SSub { a: t, b: self.t() },
-            Kind::Fmt => Op::Fmt { t, set: self.r.chance(1, 3), style: [Style::Debug, Style::Alt, Style::Display][self.r.below(3) as usize], sink: self.sink() },
-            Kind::FmtIter => Op::FmtIter { t, which: self.r.below(9) as u8, take: self.take(t), alt: self.r.chance(1, 3), sink: self.sink() },
+            Kind::Fmt => Op::Fmt { t, set: self.r.chance(1, 3), style: [Style::Debug, Style::Alt, Style::Display][self.r.below(3) as usize], sink: self.sink(), spec: if self.r.chance(1, 2) { 0 } else { self.r.below(8) as u8 } },
+            Kind::FmtIter => Op::FmtIter { t, which: self.r.below(9) as u8, take: self.take(t), alt: self.r.chance(1, 3), sink: self.sink(), spec: if self.r.chance(2, 3) { 0 } else { self.r.below(8) as u8 } },
             Kind::Serde => {
                 let faults = self.p.serde_faults && self.r.chance(1, 4);
                 Op::Serde {
